@@ -68,7 +68,7 @@ def main(tier):
     t0 = time.time()
     spec = docspec.spec()
     rules = {r for r, d in spec.items() if d["group"] in GROUPS and not d["unfixable"]}
-    its = common.pipe_items(tier, KQ, KT, k1=True, k1_rules=rules)
+    its = common.pipe_items(tier, KQ, KT, k1=True, k1_rules=rules, focus=rules)
     m = explore.run(its, execute, horizon=60.0, label=PROP)
     return report.finish(
         PROP, tier, "model_checking", [m], t0,
